@@ -23,6 +23,13 @@ def run():
     for i, r in enumerate(recs):
         row = r["row"]
         comps = row["comps"]
+        # a re-owned glob must walk with the same component programs and from the same directory
+        if "comps_owned" in row and ([c["re"] for c in comps] != row["comps_owned"] or
+                                     (row["anchor"]["root"], row["anchor"]["pivot"]) !=
+                                     (row["anchor"]["owned_root"], row["anchor"]["owned_pivot"])):
+            rep.candidate({"re-owned-glob-walks-differently"},
+                          {"short": {"program": r["text"], "component_programs": [c["re"] for c in comps][:4],
+                                     "after_into_owned": row["comps_owned"][:4], "anchor": row["anchor"]}})
         if not comps or any("smt" not in c or not c.get("anchored") for c in comps):
             continue
         with_comps += 1
